@@ -78,6 +78,9 @@ def enumerated(tier, seed):
     for algo in ("fast", "motifs", "network"):
         cases.append({**mk("fast" if algo != "motifs" else "motifs", 4, [[1, 1, 1, 1]], [2]), "algo": algo,
                       "matchings": True})
+    # (c') statistical, long stub lists: 4096 degree-1 vertices, partner label block of 64 probe vertices
+    cases.append({"stat": True, "blocks": True, "algo": "fast", "M": 4096, "samples": 4 if tier == "quick" else 20,
+                  "seed": seed * 1000 + 77})
     # (c) statistical: partner of vertex 0 among M degree-1 vertices
     for i, M in enumerate((24, 40) if tier == "quick" else (24, 30, 40, 60)):
         for algo in ("fast", "motifs"):
@@ -122,6 +125,30 @@ def stat_check(case):
         params[GN.EDGE_NAMES] = [lambda: ["e"]]
         params[GN.MOTIF_INDICES] = [[0]]
         g = GCMAlgorithmCustomMotifs(params)
+    if case.get("blocks"):
+        nb = 8
+        size = M // nb
+        probes = list(range(0, M, M // 64))
+        obs = [0] * nb
+        exp = [0.0] * nb
+        with rng.seeded(case["seed"]):
+            for _ in range(case["samples"]):
+                el = call("generate", g.random_clustered_graph, list(jds)).edge_list
+                partner = {}
+                for a, b in el:
+                    partner[a] = b
+                    partner[b] = a
+                for v in probes:
+                    # relative block: how far (in label blocks) the partner lies from v
+                    obs[(partner[v] // size - v // size) % nb] += 1
+                    for d in range(nb):
+                        exp[d] += (size - (1 if d == 0 else 0)) / (M - 1)
+        s1, df1, p1 = stats.chi2_test(obs, exp)
+        if p1 < stats.ALPHA:
+            raise Violation("stat-partner-block", f"{M} degree-1 vertices: label-block distance of the partner of 64 probe "
+                                                  f"vertices is not uniform: observed {obs}, expected {[round(e, 1) for e in exp]}, "
+                                                  f"chi2={s1:.1f} df={df1} p={p1:.3g}")
+        return {"nontrivial": True, "classes": ["statistical", "long_stub_list"], "notes": {"p_partner_block": p1}}
     counts = [0] * M
     slot = [0] * (M // 2)
     with rng.seeded(case["seed"]):
@@ -173,8 +200,9 @@ def check(case):
     classes = set(G.classes_of(case)) - {"scripted_rng", "path_class", "path_factory", "path_main_enum", "path_main_str"}
     try:
         dist, leaves = rng.enumerate_outcomes(outcome, max_leaves=cap * 2)
-    except rng.Uncontrolled:
-        # RNG source not enumerable any more: seeded sampling + chi-square against the same uniform law
+    except (rng.Uncontrolled, OverflowError):
+        # RNG source not enumerable any more (float source, or far more integer draws than one shuffle per column
+        # needs): seeded sampling + chi-square against the same uniform law
         classes.add("fallback_sampling")
         if want_n > 2000:
             return {"nontrivial": False, "classes": sorted(classes)}
